@@ -92,8 +92,16 @@ def _valid_item(limit):
     return st.sampled_from(short_specs(limit)).map(lambda s: {"t": "msg", "spec": s, "choices": [0], "gap": ""})
 
 
+REPEATABLE = ["<", ">", "<>", "><", "&", "<a", "</a>", "<a>", "<!--", "<message", "<message ", "<oneLight name='a'>", "'", '"', "<message a='", "\x00", " ", "<?", "]]>"]
+
+
+def long_junk():
+    """One fragment repeated until it exceeds the small / default thresholds."""
+    return st.builds(lambda f, n: (f * n)[:n], st.sampled_from(REPEATABLE), st.sampled_from([17, 40, 129, 300, 2049, 2500]))
+
+
 def junk_item():
-    return st.fixed_dictionaries({"t": st.just("junk"), "text": junk_text() | st.sampled_from(CORRUPT)})
+    return st.fixed_dictionaries({"t": st.just("junk"), "text": junk_text() | junk_text() | st.sampled_from(CORRUPT) | long_junk()})
 
 
 def trunc_item():
@@ -236,18 +244,27 @@ SUBCHECKS = {
 }
 
 
+def _cuts_for(items):
+    """Char-by-char feeding costs one process() call per character, each of which re-parses the buffer at every '>':
+    cubic in the junk length. It terminates, but not within a budget that separates it from a hang, so long junk is
+    fed in a few pieces only (bounded termination is what 'terminates' is checked as)."""
+    if any(it.get("t") == "junk" and len(it.get("text", "")) > 200 for it in items):
+        return st.lists(st.integers(0, 5000), min_size=0, max_size=10)
+    return cuts_st
+
+
 @st.composite
 def safety_case(draw):
     thr = draw(st.sampled_from(THRESHOLDS))
     items = draw(st.lists(st.one_of(junk_item(), junk_item(), trunc_item(), _valid_item(thr)), min_size=1, max_size=8))
-    return {"items": items, "cuts": draw(cuts_st), "threshold": thr}
+    return {"items": items, "cuts": draw(_cuts_for(items)), "threshold": thr}
 
 
 @st.composite
 def transparent_case(draw):
     thr = draw(st.sampled_from(THRESHOLDS))
     items = draw(st.lists(st.one_of(junk_item(), _valid_item(thr)), min_size=2, max_size=8))
-    return {"items": items, "cuts": draw(cuts_st), "threshold": thr}
+    return {"items": items, "cuts": draw(_cuts_for(items)), "threshold": thr}
 
 
 @st.composite
